@@ -247,7 +247,7 @@ func runMSInner(cMS *vt.C, s *MSScript) (nontrivial bool, f *vt.Finding) {
 }
 
 func TestMergeSplit(t *testing.T) {
-	vt.Run(t, cMS, vt.N(1500, 60000), genMS, runMS)
+	vt.Run(t, cMS, vt.N(1500, 400000), genMS, runMS)
 }
 
 // Oversize: max_size forced below the largest indivisible unit — the shapes on
@@ -291,5 +291,5 @@ func runProbe(s MSScript) (bool, string, *vt.Finding) {
 }
 
 func TestMergeSplitProbes(t *testing.T) {
-	vt.Run(t, cProbe, vt.N(600, 20000), genProbe, runProbe)
+	vt.Run(t, cProbe, vt.N(600, 150000), genProbe, runProbe)
 }
